@@ -1,0 +1,25 @@
+//go:build verif
+
+// Contracts for float and mixed int/float arithmetic (C15).  See /verif/DESIGN.md.  Floats are IEEE-754 doubles in the
+// SMT floating-point theory; "exact" means over the reals.
+
+package py
+
+//@ global-invariant floaterrs: floatDivisionByZero != nil && floatDivisionByZero.Base == ZeroDivisionError
+
+//@ func (Float).M__int__(a) (r, err)
+//@   ensures inrange: fconst(-9223372036854775808) <= a && a < fconst(9223372036854775808) ==> err == nil && is(r, Int)
+//@   ensures above: isfinite(a) && a >= fconst(9223372036854775808) ==> err == nil && is(r, *BigInt)
+//@   ensures below: isfinite(a) && a < fconst(-9223372036854775808) ==> err == nil && is(r, *BigInt)
+
+//@ func (Float).M__floordiv__(a, other) (r, err)
+//@   ensures zero: is(other, Int) && den(other) == 0 ==> raisesExc(err, ZeroDivisionError)
+//@   ensures fzero: is(other, Float) && other.(Float) == fconst(0) ==> raisesExc(err, ZeroDivisionError)
+
+//@ func (Float).M__rfloordiv__(a, other) (r, err)
+//@   ensures zero: (is(other, Int) || is(other, Float)) && a == fconst(0) ==> raisesExc(err, ZeroDivisionError)
+
+//@ func floatDivMod(a, b) (q, m, err)
+//@   ensures zero: b == fconst(0) ==> raisesExc(err, ZeroDivisionError)
+//@   ensures ok: !(b == fconst(0)) ==> err == nil
+
